@@ -56,6 +56,29 @@ class Undecided(AnalysisError):
     pass
 
 
+class NeedDecision(Exception):
+    pass
+
+
+def explore(make, limit=6):
+    """All outcomes of an evaluation whose undecided branches are taken both ways: [(decisions [(text, bool)], trace)]."""
+    out = []
+    stack = [[]]
+    while stack:
+        dec = stack.pop()
+        ev = make(dec)
+        try:
+            tr = ev.run()
+        except NeedDecision:
+            if len(dec) >= limit:
+                raise Undecided("too many undecided branches")
+            stack.append(dec + [True])
+            stack.append(dec + [False])
+            continue
+        out.append((list(zip(ev.asked, dec)), tr))
+    return out
+
+
 class _Ret(Exception):
     def __init__(self, v):
         self.v = v
@@ -70,8 +93,10 @@ class Trace:
 
 
 class FDE:
-    def __init__(self, repo, func, attr_env: dict, enum_classes=(), env=None, inline=False, depth=0, hooks=None):
+    def __init__(self, repo, func, attr_env: dict, enum_classes=(), env=None, inline=False, depth=0, hooks=None, decisions=None):
         self.hooks = hooks or {}
+        self.decisions = decisions  # None: an undecided branch is an error; list: pre-chosen outcomes, consumed in order
+        self.asked: list[str] = []
         self.repo = repo
         self.func = func
         self.attr = dict(attr_env)
@@ -117,7 +142,12 @@ class FDE:
         elif isinstance(st, ast.If):
             c = self.ev(st.test)
             if isinstance(c, Unknown):
-                raise Undecided(f"{self.func.qualname}: branch `{norm(st.test)}` is not decided by the given state ({c.why})")
+                if self.decisions is None:
+                    raise Undecided(f"{self.func.qualname}: branch `{norm(st.test)}` is not decided by the given state ({c.why})")
+                self.asked.append(norm(st.test))
+                if len(self.asked) > len(self.decisions):
+                    raise NeedDecision(norm(st.test))
+                c = self.decisions[len(self.asked) - 1]
             self._block(st.body if c else st.orelse)
         elif isinstance(st, ast.Pass):
             pass
@@ -139,8 +169,32 @@ class FDE:
             if isinstance(target, ast.AST) and isinstance(target, (ast.List, ast.Tuple)):
                 return self.ev(target)
             return Unknown(f"name {e.id}")
+        if isinstance(e, ast.DictComp) and len(e.generators) == 1 and isinstance(e.generators[0].target, ast.Name) and not e.generators[0].ifs:
+            it = self.ev(e.generators[0].iter)
+            if isinstance(it, list) and not any(isinstance(x, Unknown) for x in it):
+                out = {}
+                saved = self.env.get(e.generators[0].target.id)
+                for x in it:
+                    self.env[e.generators[0].target.id] = x
+                    k = self.ev(e.key)
+                    if isinstance(k, (Unknown, list, dict)):
+                        return Unknown(norm(e))
+                    out[k] = self.ev(e.value)
+                if saved is None:
+                    self.env.pop(e.generators[0].target.id, None)
+                else:
+                    self.env[e.generators[0].target.id] = saved
+                return out
+            return Unknown(norm(e))
         if isinstance(e, ast.Attribute):
             d = dotted(e)
+            if isinstance(e.value, ast.Name) and isinstance(self.env.get(e.value.id), ClsTok):
+                cls = self.repo.cls(self.env[e.value.id].name)
+                if cls.find_const_expr(e.attr)[1] is not None:
+                    try:
+                        return self.repo.const(cls, e.attr)
+                    except AnalysisError:
+                        return Unknown(d or norm(e))
             if d is not None:
                 if d in self.attr:
                     return self.attr[d]
@@ -252,7 +306,10 @@ class FDE:
                 if callee is not None:
                     params = [a.arg for a in callee.node.args.args[1:]]
                     sub = FDE(self.repo, callee, self.attr, self.enum_classes, env=dict(zip(params, args)), inline=True, depth=self.depth + 1, hooks=self.hooks)
-                    tr = sub.run()
+                    try:
+                        tr = sub.run()
+                    except Undecided:
+                        return Unknown(f"call {name}")
                     return tr.returned
             return ("call", name, args)
         if isinstance(e, ast.IfExp):
